@@ -40,6 +40,8 @@ pub struct GenCfg {
     pub stack_anyway: bool,
     /// percent chance (per shape draw) of a keyword-list alternation of 28..48 literals
     pub big_choices_pct: u32,
+    /// percent chance that a literal is one of a few long ones (> 24 bytes, multi-byte characters at various offsets)
+    pub long_literals_pct: u32,
     /// percent chance (per shape draw) of keyword-exclusion alternatives: `!k ~ x | !w ~ y | !k ~ z`
     pub negpred_pct: u32,
 }
@@ -61,6 +63,7 @@ impl GenCfg {
             stack_anyway: false,
             big_choices_pct: 0,
             negpred_pct: 0,
+            long_literals_pct: 0,
         }
     }
 }
@@ -99,7 +102,7 @@ enum Need {
     Consume,
 }
 
-pub const LITS: &[&str] = &["a", "b", "c", "ab", "ba", "aa", "abc", "é", " ", "\n", "x", "bX", "A", "aB", "€", "-", "a", "b", "ab", "É", "kΩ", "🎈", "\r"];
+pub const LITS: &[&str] = &["a", "b", "c", "ab", "ba", "aa", "abc", "é", " ", "\n", "x", "bX", "A", "aB", "€", "-", "a", "b", "ab", "É", "kΩ", "🎈", "\r", "Ａb", "\u{feff}"];
 pub const BUILTIN_CHARS: &[&str] = &[
     "ANY",
     "ASCII_DIGIT",
@@ -274,6 +277,17 @@ impl<'a> G<'a> {
     }
 
     fn lit_nonempty(&mut self) -> String {
+        if self.cfg.long_literals_pct > 0 && self.rng.chance(self.cfg.long_literals_pct, 100) {
+            const LONG: &[&str] = &[
+                "<!-- generated section → do not edit -->",
+                "abcdefghijklmnopqrstuvw→xyz",
+                "0123456789012345678901éé0123",
+                "aaaaaaaaaaaaaaaaaaaaaaa🎈bbbb",
+                "the quick brown fox jumps over the lazy dog",
+                "ééééééééééééééééééééééééé",
+            ];
+            return self.rng.pick(LONG).to_string();
+        }
         if self.cfg.wide_literals && self.rng.chance(1, 2) {
             return self.wide_string(1);
         }
@@ -831,6 +845,11 @@ impl<'a> G<'a> {
                 if self.rng.chance(1, 2) {
                     let t = self.stack_leaf();
                     e = Expr::Seq(Box::new(e), Box::new(t));
+                }
+                if self.rng.chance(1, 6) {
+                    // the stack-clearing idiom: a repetition that consumes the stack, not the input
+                    let t = self.stack_leaf();
+                    e = Expr::Seq(Box::new(Expr::Seq(Box::new(e), Box::new(Expr::Rep(Box::new(Expr::Ident("DROP".into())))))), Box::new(Expr::Opt(Box::new(t))));
                 }
                 Some(e)
             }
